@@ -316,6 +316,8 @@ class H(Harness):
                 'seed': rnd.randrange(1 << 30), 'kind': kind, 'plain': plain, 'decorated': decorated, 'table': table,
                 'top_maxtime': top_maxtime, 'equil_times': rnd.sample(times, 4), 'delta': rnd.choice([0.5, 0.75, 1.0]), 'modes': modes}
         case['vacc'] = [n for n in case['graph']['nodes'] if rnd.random() < 0.6]
+        # histories on the same objects: an earlier whole run with other random choices, or one abandoned inside set-up
+        case['earlier'] = rnd.choice([None, None, None, None, 'run', 'run', 'abandoned'])
         return case
 
     # ------------------------------------------------------------- execution
@@ -576,6 +578,39 @@ class H(Harness):
             obs['leaf_results'] = {l['id']: list(objs[l['id']].results().items()) for l in leaves}
         dyn.simulationEnded = ended
 
+        if case.get('earlier'):
+            install(Oracle(seed=case['seed'] + 1))
+            last = None
+            if case['earlier'] == 'abandoned':
+                last = top.allProcesses()[-1] if isinstance(top, ep.ProcessSequence) and top.allProcesses() else top
+                orig_setup = last.setUp
+
+                def abandoned(params_):
+                    orig_setup(params_)
+                    raise RuntimeError('set-up abandoned by the harness')
+                last.setUp = abandoned
+            try:
+                dyn.set(dict(params)).run(fatal=True)
+            except Exception:
+                pass
+            finally:
+                if last is not None:
+                    del last.setUp
+            obs.update({'events': [], 'snaps': [], 'built': False, 'complete': False})
+            for k in ('all', 'names', 'loci', 'loci_for', 'statevars', 'topo0', 'initial_posted', 'results', 'leaf_results'):
+                obs.pop(k, None)
+            cur.clear()
+            fnname.clear()
+            entry.clear()
+            for p in objs.values():
+                if hasattr(p, 'seen'):
+                    p.seen = []
+                    p.gp = None
+            del rec.obs[:]
+            del rec.ids[:]
+            del rec.draws[:]
+            del rec.logs[:]
+            del rec.tranches[:]
         install(orc)
         kscript.install_draw_recorder(rec)
         saved_math = sd.math
